@@ -8,6 +8,7 @@ import (
 	"pgregory.net/rapid"
 
 	"verif/internal/dicts"
+	"verif/internal/refdict"
 )
 
 // DictChoice names the dictionary of a case: an embedded configuration by
@@ -26,11 +27,15 @@ var (
 // loaded once per process and never mutated; generated ones are fresh.
 func (d DictChoice) Load() (*dict.Parser, *Catalog, error) {
 	if d.Gen != nil {
-		p, err := dicts.Load(d.Gen.XML())
+		x := d.Gen.XML()
+		p, err := dicts.Load(x)
 		if err != nil {
 			return nil, nil, fmt.Errorf("generated dictionary does not load: %v", err)
 		}
-		return p, NewCatalog(p), nil
+		c := NewCatalog(p)
+		c.Ref = refdict.New()
+		c.Ref.Load(x)
+		return p, c, nil
 	}
 	catMu.Lock()
 	defer catMu.Unlock()
@@ -42,6 +47,22 @@ func (d DictChoice) Load() (*dict.Parser, *Catalog, error) {
 		return nil, nil, err
 	}
 	c := NewCatalog(n.Parser)
+	docs := n.XML
+	if d.Name == "default" {
+		emb, err := dicts.EmbeddedXML()
+		if err != nil {
+			return nil, nil, err
+		}
+		for _, e := range emb {
+			if e.Loaded {
+				docs = append(docs, e.XML)
+			}
+		}
+	}
+	c.Ref = refdict.New()
+	for _, x := range docs {
+		c.Ref.Load(x)
+	}
 	catCache[d.Name] = c
 	return c.P, c, nil
 }
